@@ -63,13 +63,15 @@ def run(ctx):
     worst = 0.0
     for sp in spaces:
         for nz in ((7, 9) if quick else (7, 8, 9, 12)):
-            for iota in (0.0, 1.0, "r-dependent"):
+            for iota in (0.0, 1.0, -1.0, "r-dependent", "r-dependent-signed"):
                 L = fa.Lines(sp, nz, rng)
                 R0 = 1.0
                 rs = np.array([0.75, 4.0 / 3.0, 5.0 / 12.0]) if iota else np.array([0.5, 2.0, 3.0])
-                if iota == "r-dependent":
-                    # the operator takes iota as a function of r (its tables are per radius): twist and b_z differ per surface
-                    iof = lambda r: 0.4 + 0.5 * np.asarray(r, dtype=float)
+                rdep = isinstance(iota, str)
+                if rdep:
+                    # the operator takes iota as a function of r (its tables are per radius): twist and b_z differ per surface;
+                    # the signed profile is negative on some surfaces and positive on others
+                    iof = (lambda r: 0.4 + 0.5 * np.asarray(r, dtype=float)) if iota == "r-dependent" else (lambda r: 0.9 * np.asarray(r, dtype=float) - 0.8)
                     iov = iof(rs)
                 else:
                     iov = np.full(len(rs), float(iota))
@@ -79,8 +81,8 @@ def run(ctx):
                 dt = rng.choice([1.0, -1.0, 0.5, 2.0])
                 vs = np.array(sorted(set(k / 8.0 / bz[0] / dt for k in ks)))
                 eta = [rs, L.theta, np.arange(nz, dtype=float) * 1.0, vs]
-                c = fa.consts(0.0 if iota == "r-dependent" else iota, R0)
-                if iota == "r-dependent":
+                c = fa.consts(0.0 if rdep else iota, R0)
+                if rdep:
                     c.iota = iof
                 lay = Layout("flux_surface", [1], [0, 3, 1, 2], eta, [0])
                 try:
@@ -93,7 +95,7 @@ def run(ctx):
                 # v-outer / r-inner for the r-dependent transform (consecutive calls on different surfaces with the same integer
                 # stencil), in seeded random order otherwise (gridStep's own order is r-outer / v-inner: C05 and the driver runs)
                 order = [(ri, vi) for vi in range(len(vs)) for ri in range(len(rs))]
-                if iota != "r-dependent":
+                if not rdep:
                     rng.shuffle(order)
                 for (ri, vi) in order:
                     tau = 1.0 * float(iov[ri]) / R0
@@ -130,7 +132,7 @@ def run(ctx):
                         ncase += 1
                         ctx.count((sp.key(), nz, iota, ri, vi, dt))
                         if not err <= 1e-9 * 10:
-                            ctx.violation({"kind": "value", "path": sp.kind, "iota_zero": iota == 0.0, "iota_r_dependent": iota == "r-dependent", "whole_cells": alpha == 0, "multi_cell": abs(s0) > 1,
+                            ctx.violation({"kind": "value", "path": sp.kind, "iota_zero": iota == 0.0, "iota_r_dependent": rdep, "iota_negative": bool(np.min(iov) < 0), "whole_cells": alpha == 0, "multi_cell": abs(s0) > 1,
                                            "first_radius": ri == 0},
                                           "FluxSurfaceAdvection.step(f, vIdx=%d, rIdx=%d) deviates by %g from the field-aligned Lagrange/spline formula "
                                           "(d=%s cells, twist %g rad/cell, b_z=%g, nz=%d, theta space %s)" % (vi, ri, err, d0, tau, bz[ri], nz, sp.key()),
